@@ -34,6 +34,11 @@ package main
 //	racestart W                    hold the worker's first database read, Start, RemoveWallet at once (D10) -> accepted stopped | PANIC …
 //	await                          (after restart + start) wait until no wallet is importing / removing -> wallets string | TIMEOUT
 //	stop                           plain Stop with watchdog                                       -> stopped | HANG
+//	live remove W N | live import I N | live none - N
+//	                               the running side (eng_proto_live.go): N block notifications queued behind a held
+//	                               follower, the task queued (the worker parks at suspend), follower released, NO stop:
+//	                               wait until the follower has processed all N blocks and the task has finished
+//	                                                                                               -> done | TIMEOUT … | nogate | rejected
 
 import (
 	"fmt"
@@ -263,6 +268,8 @@ func (x *protoExec) Exec(a []string) string {
 		return x.stopHold(strings.Split(a[1], ";"))
 	case a[0] == "await" && len(a) == 1:
 		return x.await()
+	case a[0] == "live" && len(a) == 4:
+		return x.live(a[1], a[2], a[3])
 	case a[0] == "restart" && len(a) == 1:
 		if x.started {
 			return "bad-op"
@@ -689,6 +696,9 @@ func genProto(g *Gen) {
 			}
 		}
 		genProtoRace(g)
+		for _, t := range []string{"remove", "import", "none"} {
+			genProtoLive(g, t)
+		}
 	}
 }
 
